@@ -43,6 +43,9 @@ def make_cost(spec):
     if name == 'infregion':  # +inf on a half space
         c, t = spec[1], spec[2]
         return lambda x: INF if x[0] > t else float(sum((xi - ci) * (xi - ci) for xi, ci in zip(x, c)))
+    if name == 'plateau':    # flat-bottomed bowl: exact ties between different points (and between ensemble members)
+        c, w = spec[1], spec[2]
+        return lambda x: float(sum(max(0.0, abs(xi - ci) - w) * max(0.0, abs(xi - ci) - w) for xi, ci in zip(x, c)))
     if name == 'array':      # vector valued (for reducers)
         c = spec[1]
         return lambda x: np.array([(xi - ci) * (xi - ci) + 0.5 for xi, ci in zip(x, c)] + [0.25 * abs(x[0])])
@@ -58,6 +61,7 @@ def gen_cost(rng, dim, kinds=None):
     if name == 'flat': return [name, c, rng.randint(1, max(1, dim - 1))]
     if name == 'infregion': return [name, c, c[0] + rng.choice([0.5, 2.0])]
     if name == 'tied' and dim < 2: return ['sphere', c]
+    if name == 'plateau': return [name, c, rng.choice([0.5, 1.0, 2.0])]
     return [name, c]
 
 
